@@ -178,6 +178,68 @@ theorem stepStore_frame (st st' : Store) (toks : List String) (out : String)
   | push g => exact ⟨0, fun j hj _ => copies_untouched_push st j g hj⟩
   | update i g => exact ⟨i, fun j _ hji => copies_untouched_inplace st i j g (Ne.symm hji)⟩
 
+/-! ## Caller-owned arrays: construction copies, so nothing leaks -/
+
+/-- **No request ever changes an array the caller owns** — whether it was used for one axis or
+several, for `delta` and `zero`, for coordinates and weights, or for several grids. -/
+theorem caller_arrays_untouched (w w' : World) (toks : List String) (out : String)
+    (h : stepWorld w toks = some (w', out)) (hr : toks ≠ ["reset"]) :
+    ∀ k, k < w.arrays.length → w'.arrays[k]? = w.arrays[k]? := by
+  intro k hk
+  unfold stepWorld at h
+  split at h
+  · exact absurd rfl hr
+  · simp only [Option.map_eq_some_iff, Prod.mk.injEq] at h
+    obtain ⟨l, _, rfl, _⟩ := h
+    simp [List.getElem?_append_left hk]
+  · simp only [Option.some.injEq, Prod.mk.injEq] at h
+    rw [← h.1]
+  · split at h
+    · simp only [Option.map_eq_some_iff, Prod.mk.injEq] at h
+      obtain ⟨wt, _, rfl, _⟩ := h
+      rfl
+    · exact absurd h (by simp)
+  · simp only [Option.map_eq_some_iff, Prod.mk.injEq] at h
+    obtain ⟨r, _, rfl, _⟩ := h
+    rfl
+
+/-- **Frame property with caller arrays**: apart from `reset`, a request changes at most one
+existing grid — in particular a grid built from the same caller arrays as another one is not
+affected by operations on that other grid. -/
+theorem world_frame (w w' : World) (toks : List String) (out : String)
+    (h : stepWorld w toks = some (w', out)) (hr : toks ≠ ["reset"]) :
+    ∃ i, ∀ j, j < w.grids.length → j ≠ i → w'.grids[j]? = w.grids[j]? := by
+  unfold stepWorld at h
+  split at h
+  · exact absurd rfl hr
+  · simp only [Option.map_eq_some_iff, Prod.mk.injEq] at h
+    obtain ⟨l, _, rfl, _⟩ := h
+    exact ⟨0, fun _ _ _ => rfl⟩
+  · simp only [Option.some.injEq, Prod.mk.injEq] at h
+    rw [← h.1]; exact ⟨0, fun _ _ _ => rfl⟩
+  · split at h
+    · simp only [Option.map_eq_some_iff, Prod.mk.injEq] at h
+      obtain ⟨wt, _, rfl, _⟩ := h
+      exact ⟨0, fun j hj _ => copies_untouched_push _ j _ hj⟩
+    · exact absurd h (by simp)
+  · simp only [Option.map_eq_some_iff, Prod.mk.injEq] at h
+    obtain ⟨⟨st', o⟩, hs, rfl, _⟩ := h
+    exact stepStore_frame w.grids st' _ o hs hr
+
+/-- **One array passed for two axes is scaled / shifted once per axis**: the grid holds two
+independent copies, so the result is the same as for two separate equal arrays. -/
+theorem shared_axis_acts_once (ax : List Rat) (f1 f2 b1 b2 : Rat) :
+    (Coords.separated [ax, ax]).scale [f1, f2] = .separated [ax.map (· * f1), ax.map (· * f2)] ∧
+    (Coords.separated [ax, ax]).shift [b1, b2] = .separated [ax.map (· + b1), ax.map (· + b2)] ∧
+    (Coords.unstructured [ax, ax]).scale [f1, f2] = .unstructured [ax.map (· * f1), ax.map (· * f2)] ∧
+    (Coords.unstructured [ax, ax]).shift [b1, b2] = .unstructured [ax.map (· + b1), ax.map (· + b2)] :=
+  ⟨rfl, rfl, rfl, rfl⟩
+
+/-- the same for one array used as `delta` and as `zero` of a regular grid -/
+theorem shared_delta_zero_acts_once (v : Rat) (n : Nat) (f b : Rat) :
+    (Coords.regular [⟨v, n, v⟩]).scale [f] = .regular [⟨v * f, n, v * f⟩] ∧
+    (Coords.regular [⟨v, n, v⟩]).shift [b] = .regular [⟨v, n, v + b⟩] := ⟨rfl, rfl⟩
+
 /-! ## The code before the repairs -/
 
 /-- D2: with the old `SeparatedCoords.__eq__` a separated grid with unequal axis lengths is not equal
